@@ -138,6 +138,10 @@ Theorem C03_partial :
   (* [partial_abbrev_prefixed] *)
   (forall os p, (1 <= List.length os <= 4)%nat /\ Forall (fun a => 0 <= a < 256) os -> 0 <= p <= 32 ->
      cidr_abbrev_to_verbose (dotted os ++ "/" ++ fmt_d p) = Ok (Std4.ntoa (pad4 os) ++ "/" ++ fmt_d p)%string) /\
+  (* [implicit_prefix_is_abbrev] *)
+  (* IPNetwork(s, implicit_prefix=True) is IPNetwork(cidr_abbrev_to_verbose(s)), for every string *)
+  (forall be s s' version flags, cidr_abbrev_to_verbose s = Ok s' ->
+     net_init be (AStr s) true version flags = net_init be (AStr s') false version flags) /\
   (* [partial_bare] *)
   (* IPNetwork on a partial form without prefix, implicit_prefix off: padded address, /32 *)
   (forall be os version flags,
@@ -159,7 +163,7 @@ Theorem C03_partial :
            nval := if has_flag flags NOHOST then quad_value (pad4 os) - quad_value (pad4 os) mod 2 ^ (width 4 - classful o1)
                    else quad_value (pad4 os);
            nplen := classful o1 |}).
-Proof. exact (conj ((fun o => conj (classful_prefix_int_ok o) (classful_prefix_int_bad o))) (conj expand_partial (conj abbrev_classful (conj abbrev_prefixed (conj partial_bare (conj partial_prefixed partial_classful)))))). Qed.
+Proof. exact (conj ((fun o => conj (classful_prefix_int_ok o) (classful_prefix_int_bad o))) (conj expand_partial (conj abbrev_classful (conj abbrev_prefixed (conj net_init_abbrev (conj partial_bare (conj partial_prefixed partial_classful))))))). Qed.
 Print Assumptions C03_partial.
 
 (* ============================================================ (6) malformed notations raise AddrFormatError *)
@@ -200,6 +204,17 @@ Theorem C03_rejects :
      (version = Some 6 \/ version = None -> init_str be val1 (Some 6) INET_PTON = Raise AddrFormatError) ->
      version = Some 4 \/ version = Some 6 \/ version = None ->
      net_init be (AStr (val1 ++ rest)) false version flags = Raise AddrFormatError) /\
+  (* [rejects_address_implicit] *)
+  (* the same under implicit_prefix=True, where the text the parser sees is cidr_abbrev_to_verbose(s) *)
+  (forall be s val1 rest version flags, cidr_abbrev_to_verbose s = Ok (val1 ++ rest)%string ->
+     contains_char "/" val1 = false -> (rest = ""%string \/ exists t, rest = ("/" ++ t)%string) ->
+     (version = Some 4 \/ version = None ->
+        init_str be val1 (Some 4) INET_PTON = Raise AddrFormatError /\
+        (expand_partial_address val1 = Raise AddrFormatError \/
+         exists e, expand_partial_address val1 = Ok e /\ init_str be e (Some 4) INET_PTON = Raise AddrFormatError)) ->
+     (version = Some 6 \/ version = None -> init_str be val1 (Some 6) INET_PTON = Raise AddrFormatError) ->
+     version = Some 4 \/ version = Some 6 \/ version = None ->
+     net_init be (AStr s) true version flags = Raise AddrFormatError) /\
   (* [rejects_tuple] *)
   (forall be v p ip version flags ver, version = Some ver -> valid_ver ver = true ->
      ~ (0 <= v < 2 ^ width ver /\ 0 <= p <= width ver) ->
@@ -211,7 +226,7 @@ Theorem C03_rejects :
   (forall be t ip version flags, (List.length t <> 2)%nat ->
      version = Some 4 \/ version = Some 6 \/ version = None ->
      net_init be (ATuple t) ip version flags = Raise AddrFormatError).
-Proof. exact (conj rejects_prefix (conj rejects_mask (conj not_contiguous (conj rejects_mask_text (conj rejects_address (conj rejects_tuple (conj rejects_tuple_implicit rejects_tuple_len))))))). Qed.
+Proof. exact (conj rejects_prefix (conj rejects_mask (conj not_contiguous (conj rejects_mask_text (conj rejects_address (conj rejects_address_implicit (conj rejects_tuple (conj rejects_tuple_implicit rejects_tuple_len)))))))). Qed.
 Print Assumptions C03_rejects.
 
 (* ============================================================ (7) for EVERY argument: what can escape, what can be built *)
